@@ -521,7 +521,9 @@ pub fn run(tier: Tier) -> i32 {
     if let Some(art) = crate::common::replay_artefact() {
         return crate::common::finish_replay("C10", &art, &|ws| ws.iter().map(|w| confirm_stexp(&*spec, w)).collect());
     }
-    let depth = if tier.is_thorough() { 3 } else { 2 };
+    // depth 3 in both tiers (the thorough tier adds mem_init_zero for every length); states at
+    // the depth bound are not materialised (stexp.rs), which is what made 3 affordable for quick
+    let depth = 3;
     let out = run_stexp(Arc::clone(&spec), depth, crate::common::ncpu(), 1 << 30, if tier.is_thorough() { 1500 } else { 45 });
     st_evidence(&mut run, &out, depth, "mem_init_area / mem_init_zero (7 starts x 7 lengths incl. 0, before/inside/enclosing/abutting/overlapping by exactly one byte), mem_init_zero_anywhere (4 lengths), mem_init_anywhere (3), init_stack (3), mem_resize_section (first 4 non-code areas + absent x 7 sizes), mem_prot (4 masks + invalid), brk(0)/brk(+0x10)/brk(+0x1000) as guest syscalls; 5 initial machines (code at 0x1000 / 0x3000 / 0x400000, generated two-segment ELF, same after init_stack_program_start)");
     run.cov("initial_machines", json!(spec.inits().iter().map(|i| i.0.clone()).collect::<Vec<_>>()));
